@@ -31,7 +31,8 @@
 EXTENDS Integers, Sequences, FiniteSets, TLC
 
 CONSTANTS FixAsyncCb,       \* TRUE: AddWaitForCsvTx does not call back synchronously (proposed fix)
-          FixCbOutsideLock  \* TRUE: HandleCsvTx / Update call back after releasing their lock (proposed fix)
+          FixCbOutsideLock, \* TRUE: HandleCsvTx / Update call back after releasing their lock (proposed fix)
+          FixKickoff        \* TRUE: AddWaitForConfirmationTx hands the first height over without blocking (buffered channel)
 
 Drivers == {"A", "B", "C"}
 Spawned == {"obs", "elw", "rec"}
@@ -166,13 +167,13 @@ Prog(f) ==
     [] f = "AddWaitForConfTx" ->
         IfElse("rpc",
            <<Spawn("obs", "ObsLoop"), Acq("W"), Acc("txwatcher.(*BlockchainRpcTxWatcher).AddWaitForConfirmationTx", V("w.obsList", "w")),
-             Gate("rpc.height"), Send("obs"), Rel("W"), Ret>>,
+             Gate("rpc.height"), Send("obs"), Rel("W"), Ret>>,        \* newBlock <- height: blocks, with W (and the swap mutex) held, until the loop takes it
            <<Acq("H"), Acc("electrum.(*liquidBlockHeaderSubscriber).Register", V("el.observers", "w")), Set("confN", "1"), Rel("H"), Ret>>)
     \* ---- watcher: block notifications
     [] f = "Notify" ->      \* a new block reaches the watcher of the swap's chain
         IfElse("rpc",
            <<Acc("txwatcher.(*BlockchainRpcTxWatcher).StartWatchingTxs.func1", V("w.obsList", "r")), Call("HandleCsvTx"), Ret>>,
-           <<Set("hdr", "d"), Spawn("elw", "Update"), Ret>>)
+           IfThen("elwFree", <<Set("hdr", "d"), Spawn("elw", "Update")>>) \o <<Ret>>)   \* the watcher goroutine takes one header at a time
     [] f = "HandleCsvTx" -> \* txwatcher/rpctxwatcher.go HandleCsvTx
         <<Set("rm", "F"), Acq("W"), Acc("txwatcher.(*BlockchainRpcTxWatcher).HandleCsvTx", V("w.csvList", "r"))>>
         \o IfThen("csvListed",
@@ -184,20 +185,28 @@ Prog(f) ==
         \o <<Acq("W"), Acc("txwatcher.(*BlockchainRpcTxWatcher).TxClaimed", V("w.csvList", "w"))>>
         \o IfThen("rmNow", <<Set("csvN", "0")>>) \o <<Rel("W"), Ret>>
     [] f = "Update" ->      \* lwk StartWatchingTxs loop body: acceptBlockHeight + subscriber.Update
-        <<Acq("R"), Acc("lwk.(*electrumTxWatcher).acceptBlockHeight", V("el.height", "w")), Rel("R"),
+        <<Set("rm", "F"), Acq("R"), Acc("lwk.(*electrumTxWatcher).acceptBlockHeight", V("el.height", "w")), Rel("R"),
           Acq("H"), Acc("electrum.(*liquidBlockHeaderSubscriber).Update", V("el.observers", "r")), Setn("observers")>>
         \o While("n>0",
               <<Decn>>
               \o IfElse("confObs",
                     \* observeOpeningTX.Callback
                     <<Gate("el.history")>>
-                    \o IfThen("hdrConfirmed", <<Gate("el.rawtx"), Call("OnTxConfirmed"),
-                                                Acc("electrum.(*liquidBlockHeaderSubscriber).Deregister", V("el.observers", "w")), Set("confN", "0")>>),
+                    \o IfThen("hdrConfirmed",
+                          <<Gate("el.rawtx")>>
+                          \o IfElse("cbUnderLock",
+                                <<Call("OnTxConfirmed"), Acc("electrum.(*liquidBlockHeaderSubscriber).Deregister", V("el.observers", "w")), Set("confN", "0")>>,
+                                <<Set("rm", "K")>>)),
                     \* observeCSVTX.Callback
                     <<Gate("el.history")>>
-                    \o IfThen("hdrMature", <<Call("OnCsvPassed"),
-                                             Acc("electrum.(*liquidBlockHeaderSubscriber).Deregister", V("el.observers", "w")), Set("csvN", "0")>>)))
-        \o <<Rel("H"), Ret>>
+                    \o IfThen("hdrMature",
+                          IfElse("cbUnderLock",
+                                <<Call("OnCsvPassed"), Acc("electrum.(*liquidBlockHeaderSubscriber).Deregister", V("el.observers", "w")), Set("csvN", "0")>>,
+                                <<Set("rm", "L")>>))))
+        \o <<Rel("H")>>
+        \o IfThen("rmLater", <<Call("OnCsvPassed"), Acq("H"), Acc("electrum.(*liquidBlockHeaderSubscriber).Deregister", V("el.observers", "w")), Set("csvN", "0"), Rel("H")>>)
+        \o IfThen("rmConfLater", <<Call("OnTxConfirmed"), Acq("H"), Acc("electrum.(*liquidBlockHeaderSubscriber).Deregister", V("el.observers", "w")), Set("confN", "0"), Rel("H")>>)
+        \o <<Ret>>
     [] f = "ObsLoop" ->     \* txwatcher observationLoop of one swap
         Forever(<<Recv, Gate("rpc.height"), Gate("rpc.hash"), Gate("rpc.txout")>>
                 \o IfThen("confirmed",
@@ -206,8 +215,8 @@ Prog(f) ==
     [] f = "DeliverH" ->    \* dispatcher hands the new height to the swap's observation loop
         IfElse("rpc",
            <<Acc("txwatcher.(*BlockchainRpcTxWatcher).StartWatchingTxs.func1", V("w.obsList", "r"))>>
-           \o IfThen("obsAlive", <<Send("obs")>>) \o <<Ret>>,
-           <<Set("hdr", "d"), Spawn("elw", "Update"), Ret>>)
+           \o IfThen("obsReady", <<Send("obs")>>) \o <<Ret>>,         \* a loop that is busy does not take the height (the sender goroutine stays behind)
+           IfThen("elwFree", <<Set("hdr", "d"), Spawn("elw", "Update")>>) \o <<Ret>>)
     \* ---- actions of the FSM states (Execute)
     [] f = "A_ACP"   -> <<Gate("ln.notifier"), Gate("wallet.script"), Call("AddWaitForCsvTx"), Set("nev", "NoOp"), Ret>>
     [] f = "A_WCSV"  -> MgrRemove \o <<Gate("wallet.script"), Call("AddWaitForCsvTx"), Set("nev", "NoOp"), Ret>>
@@ -300,12 +309,14 @@ Cond(c, s, p) ==
     [] c = "csvListed"   -> s.csvN > 0
     [] c = "rmLater"     -> s.rm[p] = "L"
     [] c = "rmNow"       -> s.rm[p] = "T"
+    [] c = "rmConfLater" -> s.rm[p] = "K"
     [] c = "n>0"         -> Top(s, p).n > 0
     [] c = "confObs"     -> s.confN > 0
     [] c = "hdrMature"   -> s.hdr = 2
     [] c = "hdrConfirmed" -> s.cf
     [] c = "confirmed"   -> s.cf
-    [] c = "obsAlive"    -> Running(s, "obs")
+    [] c = "obsReady"    -> Running(s, "obs") /\ Prog(Top(s, "obs").f)[Top(s, "obs").i].op = "recv" /\ ~s.got["obs"]
+    [] c = "elwFree"     -> ~Running(s, "elw")
     [] c = "fltCoop"     -> "wallet.coop" \in s.cfg.faults
     [] c = "fltSend"     -> "msg.send" \in s.cfg.faults
     [] c = "inReceiver"  -> s.cfg.role = "in_receiver"
@@ -341,7 +352,7 @@ Enabled(s, p) ==
      CASE in.op = "acq"  -> /\ s.own[in.a] = "-"
                             /\ (in.a = "SW" => ~ReadersOther(s, p) /\ s.rd[p] = 0)
        [] in.op = "racq" -> s.own["SW"] = "-" /\ ~WriterWaiting(s, p)
-       [] in.op = "send" -> Running(s, in.a) /\ Ins(s, in.a).op = "recv" /\ ~s.got[in.a]
+       [] in.op = "send" -> FixKickoff \/ (Running(s, in.a) /\ Ins(s, in.a).op = "recv" /\ ~s.got[in.a])
        [] in.op = "recv" -> s.got[p]
        [] in.op = "join" -> Returned(s, in.a)
        [] in.op = "spawn" -> ~Running(s, in.a)
